@@ -47,6 +47,7 @@ KINDS = [
     ("EnumExt", "ENUMERATED { a(5), b(-1), ..., c(7) }", None, "a", ""),
     ("Real", "REAL", "(0..10)", None, "numeric"),
     ("RealF32", "REAL (WITH COMPONENTS { mantissa (-16777215..16777215), base (2), exponent (-126..104) })", None, None, "numeric"),
+    ("RealF64", "REAL (WITH COMPONENTS { mantissa (-9007199254740991..9007199254740991), base (2), exponent (-1074..971) })", None, None, "numeric"),
     ("RealToF32", "REAL", "(WITH COMPONENTS { mantissa (-16777215..16777215), base (2), exponent (-126..104) })", None, "numeric"),
     ("Bits", "BIT STRING", "(SIZE(8))", "'0101'B", ""),
     ("BitsNamed", "BIT STRING { x(0), y(3) }", "(SIZE(4..8))", None, ""),
@@ -60,6 +61,10 @@ KINDS = [
     ("IA5From", "IA5String (FROM(\"a\"..\"z\"))", "(SIZE(2))", None, ""),
     ("BmpCons", "BMPString (SIZE(1..10))", "(FROM(\"A\"..\"Z\"))", None, ""),
     ("UnivCons", "UniversalString (SIZE(2))", None, None, ""),
+    # an extensible permitted alphabet is not PER-visible: the emitter's special cases for the two wide string types
+    ("BmpFromExt", "BMPString (FROM(\"a\"..\"z\", ...))", "(SIZE(1..4))", None, ""),
+    ("UnivFromExt", "UniversalString (FROM(\"a\"..\"z\", ...))", "(SIZE(1..4))", None, ""),
+    ("IA5FromExt", "IA5String (FROM(\"a\"..\"z\", ...))", None, None, ""),
     ("Any", "ANY", None, None, "untagged"),
     ("Seq", "SEQUENCE { a INTEGER OPTIONAL, b BOOLEAN }", "(WITH COMPONENTS { ..., a PRESENT })", "{ b TRUE }", ""),
     ("SeqExt", "SEQUENCE { a INTEGER, ..., b BOOLEAN OPTIONAL }", None, None, ""),
@@ -77,7 +82,7 @@ KINDS = [
     ("ParamInst", "Tmpl {BOOLEAN}", None, None, "param"),
 ]
 
-SHARED_SPECIFICS = ("Bits", "BitsNamed", "Octs", "OctsCons", "SBMPString", "SUniversalString", "BmpCons", "UnivCons", "Any")
+SHARED_SPECIFICS = ("Bits", "BitsNamed", "Octs", "OctsCons", "SBMPString", "SUniversalString", "BmpCons", "UnivCons", "BmpFromExt", "UnivFromExt", "Any")
 
 
 def tagval(cls, num):
